@@ -141,6 +141,12 @@ class Extractor:
                 return '$%d' % self.pidx[nm]
             if nm in getattr(self, 'local_arrays', {}):
                 return self.local_arrays[nm]
+            if getattr(self, 'locals_ok', False):
+                return 'L:' + nm
+        if base.get('kind') == 'MemberExpr' and getattr(self, 'locals_ok', False):
+            b2 = strip(kids(base)[0])
+            if b2.get('kind') == 'DeclRefExpr' and b2['referencedDecl'].get('name') in self.pidx:
+                return '$%d->%s' % (self.pidx[b2['referencedDecl'].get('name')], base.get('name'))
         return None
 
     def cell_ref(self, n, ienv):
@@ -199,6 +205,8 @@ class Extractor:
         if k == 'CallExpr' and callee_name(n) == 'square':
             x = self.rat(call_args(n)[0], ienv, fenv)
             return x * x
+        if k in ('MemberExpr',) and not fe.is_float_type(n):
+            return Rat(self.shape_poly(n, ienv))           # a count used as a number (rss / rows)
         raise Unsupported('expression %s' % self.f.unit.text(n)[:60])
 
     def is_data_cond(self, c):
@@ -319,10 +327,28 @@ class Extractor:
                         self.local_arrays = {}
                     self.local_arrays[t_['referencedDecl'].get('name')] = '%s(%s)' % (cn, self.arr_of(a[0]))
                     return
+            if cn == 'DVectorAppend' and len(a) == 2 and self.arr_of(a[0]) and getattr(self, 'locals_ok', False):
+                # expression over finished accumulators:  sums become atoms  SUM<n>  described in self.sums
+                sub_env = dict(fenv)
+                self.sums = getattr(self, 'sums', {})
+                for nm_, lst in self.acc.items():
+                    if nm_ in fenv:
+                        continue
+                    key = 'SUM%d' % len(self.sums)
+                    self.sums[key] = [(t_, [l_ for l_ in lp_ if l_ not in loops], nd_) for t_, lp_, nd_ in lst]
+                    sub_env[nm_] = Rat(Poly.atom(key))
+                wrap = None
+                v_ = strip(a[1])
+                if v_.get('kind') == 'CallExpr' and callee_name(v_) == 'sqrt':
+                    wrap, v_ = 'sqrt', call_args(v_)[0]
+                self.emit((self.arr_of(a[0]), [Poly.atom(loops[-1][0])] if loops else []), 'append', self.rat(v_, ienv, sub_env), loops, s0, wrap)
+                return
             if cn == 'DVectorAppend' and len(a) == 2 and self.arr_of(a[0]) and len(loops) == 1 and str(loops[0][1]) == '0' and loops[0][3] == 1:
                 # appended once per iteration of a single loop from 0: entry number i of the appended range
                 self.emit((self.arr_of(a[0]), [Poly.atom(loops[0][0])]), 'append', self.rat(a[1], ienv, fenv), loops, s0)
                 return
+            if getattr(self, 'locals_ok', False):
+                return          # composition-level callers (MLR): other calls are examined by the caller of the extractor
             raise Unsupported('call to %s' % cn)
         if k in ('BinaryOperator', 'CompoundAssignOperator') and (s0.get('opcode') or '').endswith('=') and s0.get('opcode') not in ('==', '!=', '<=', '>='):
             l = kids(s0)[0]
@@ -333,7 +359,13 @@ class Extractor:
             l0 = strip(l)
             if l0.get('kind') == 'DeclRefExpr':
                 if fe.is_float_type(l0):
-                    self.scalar_assign(l0['referencedDecl'].get('name'), s0['opcode'], kids(s0)[1], loops, ienv, fenv, s0)
+                    rhs_ = kids(s0)[1]
+                    chain = [l0['referencedDecl'].get('name')]
+                    while strip(rhs_).get('kind') == 'BinaryOperator' and strip(rhs_).get('opcode') == '=' and strip(kids(strip(rhs_))[0]).get('kind') == 'DeclRefExpr':
+                        chain.append(strip(kids(strip(rhs_))[0])['referencedDecl'].get('name'))
+                        rhs_ = kids(strip(rhs_))[1]
+                    for nm_ in chain:
+                        self.scalar_assign(nm_, s0['opcode'], rhs_, loops, ienv, fenv, s0)
                 return
             raise Unsupported('store to %s' % self.f.unit.text(l)[:40])
         if k == 'UnaryOperator':
@@ -382,11 +414,17 @@ class Extractor:
                 self.acc[name] = []           # accumulator reset
                 fenv.pop(name, None)
                 return
-            fenv[name] = self.rat(rhs, ienv, fenv)       # a temporary
-            self.acc.pop(name, None)
+            v_ = self.rat(rhs, ienv, fenv)
+            if hasattr(self, 'promoted'):
+                self.promoted.discard(name)
+            fenv[name] = v_                               # a temporary ...
+            self.acc[name] = [(v_, list(loops), node)]    # ... or the start value of an accumulation (ypred = b0; ypred += ...)
+            self.acc_started = getattr(self, 'acc_started', set()) | {name}
             return
         if op == '+=' and name in self.acc:
             self.acc[name].append((self.rat(rhs, ienv, fenv), list(loops), node))
+            fenv.pop(name, None)                          # no longer a plain temporary
+            self.promoted = getattr(self, 'promoted', set()) | {name}
             return
         raise Unsupported('update %s of scalar %s' % (op, name))
 
@@ -399,6 +437,11 @@ class Extractor:
                 ca = self.cell_ref(a, ienv)
                 if ca and ca[0] == arr and [str(x) for x in ca[1]] == [str(x) for x in idx]:
                     op, rhs, r0 = '+=', b, strip(b)
+        if op == '=' and r0.get('kind') == 'DeclRefExpr' and r0['referencedDecl'].get('name') in self.acc and \
+                (r0['referencedDecl'].get('name') not in fenv or r0['referencedDecl'].get('name') in getattr(self, 'promoted', set())):
+            for term, lp, nd in self.acc[r0['referencedDecl'].get('name')]:
+                self.emit((arr, idx), '+=', term, lp, nd)
+            return
         if op == '+=' and r0.get('kind') == 'DeclRefExpr' and r0['referencedDecl'].get('name') in self.acc:
             for term, lp, nd in self.acc[r0['referencedDecl'].get('name')]:
                 self.emit((arr, idx), '+=', term, lp, nd)
@@ -506,11 +549,46 @@ def parse_index(s):
     return p
 
 
+def shift_to_zero(out_idx, term, loops):
+    """re-index every loop variable so that its range starts at 0 (v := v' + lo): index re-parametrisations then compare equal"""
+    out_idx = list(out_idx)
+    loops = list(loops)
+    for n_, (v, lo, hi, step, node) in enumerate(loops):
+        if isinstance(lo, tuple) or str(lo) == '0':
+            continue
+        sub = {v: Poly.atom(v) + lo}
+        out_idx = [ix.subst(sub) if isinstance(ix, Poly) else ix for ix in out_idx]
+        tsub = {}
+        for at in term.atoms():
+            if not at.endswith(']'):
+                continue
+            arr, rest = at.split('[', 1)
+            parts = rest[:-1].split('][')
+            tsub[at] = Poly.atom('%s[%s]' % (arr, ']['.join(str(parse_index(p_).subst(sub)) for p_ in parts)))
+        term = Rat(term.n.subst(tsub), term.d.subst(tsub))
+        loops[n_] = (v, Poly.const(0), hi - lo, step, node)
+        for m_ in range(len(loops)):
+            if m_ != n_:
+                v2, lo2, hi2, st2, nd2 = loops[m_]
+                loops[m_] = (v2, lo2.subst(sub) if isinstance(lo2, Poly) else lo2, hi2.subst(sub), st2, nd2)
+    return out_idx, term, loops
+
+
 def unify(ex, contribs, d):
     """does some renaming of loop variables map the kernel's single contribution onto the definition?  -> (ok, message)"""
     if len(contribs) != 1:
         return False, '%d contributions to the output, the definition has one: %s' % (len(contribs), '; '.join(repr(c) for c in contribs)[:300])
     c = contribs[0]
+    k_out, k_term, k_loops = shift_to_zero(c.out[1], c.term, c.loops)
+    c = Contribution((c.out[0], k_out), c.mode, k_term, k_loops, c.node, c.wrap)
+    d = dict(d)
+    d_loops = [(v, lo, hi, 1, None) for v, (lo, hi) in d['dom'].items()]
+    d_out, d_term, d_loops = shift_to_zero([Poly.atom(x) if isinstance(x, str) and not x.lstrip('-').isdigit() else (Poly.const(int(x)) if isinstance(x, str) else x)
+                                            for x in d['out'][1]], d['term'], d_loops)
+    d['out'] = (d['out'][0], [str(x) for x in d_out])
+    d['term'] = d_term
+    d['dom'] = {v: (lo, hi) for v, lo, hi, st, nd in d_loops}
+    shape_subst = getattr(ex, 'shape_subst', {})
     if c.out[0] != d['out'][0]:
         return False, 'writes %s, the definition writes %s' % (c.out[0], d['out'][0])
     if c.mode != d['mode'] or (c.wrap or None) != d.get('wrap'):
@@ -550,6 +628,8 @@ def unify(ex, contribs, d):
 
     def norm(p, ren, cm=None):
         q = rename_atoms(p, ren)
+        if shape_subst:
+            q = q.subst(shape_subst)
         return q.subst(cm) if cm else q
     best = None
     for perm in itertools.permutations(dv):
